@@ -1,6 +1,8 @@
 import Aiorpcx.C20.Model
+import Aiorpcx.C20.TimedProps
 import Aiorpcx.C13.Props
 import Aiorpcx.C14.Lemmas
+import Aiorpcx.C13.Table
 import Aiorpcx.Facts.C20
 /-!
 # C20 — property theorems for the outgoing side (adaptive in-flight cap)
@@ -181,11 +183,11 @@ theorem step_bound_literal_pinned_witness :
 /-! ## (ii) the outgoing limiter -/
 
 /-- limiter theorems at the outgoing initial limit: permits are conserved for any sequence of
-sends, completions, cancelled queued callers and recalibrated limits (≥ 1 by `target_range`). -/
-theorem outgoing_permit_conservation (ops : List C13.Op) (ht : C13.targetsGE1 ops) :
+sends, completions, cancelled queued callers and limit changes. -/
+theorem outgoing_permit_conservation (ops : List C13.Op) :
     let s := (C13.run (C13.init Facts.C20.outgoingInitial) ops).1
     s.S + s.holders.length = s.V ∧ 0 ≤ s.S ∧ 1 ≤ s.V ∧ s.leaked = 0 :=
-  C13.permit_conservation _ (by decide) ops ht
+  C13.permit_conservation _ ops
 
 /-- **A lowered limit takes effect as outstanding requests complete** (= C13
 `reduction_takes_effect` on the outgoing limiter). -/
@@ -193,24 +195,25 @@ theorem lowered_limit_lazy (s : C13.Lim) (h : C13.Inv s) (n : Int) (hn : n ≤ s
     (hno : C13.noSetTarget ops) :
     let s' := (C13.run (C13.step s (.setTarget n)).1 ops).1
     let k := C13.exitsDone (C13.step s (.setTarget n)).1 ops
-    s'.V = max n (s.V - k) ∧ (s'.holders.length : Int) ≤ max n (s.V - k) ∧
-    (s.V - n ≤ k → (s'.holders.length : Int) ≤ n) :=
+    s'.V = max (max n 1) (s.V - k) ∧ (s'.holders.length : Int) ≤ max (max n 1) (s.V - k) ∧
+    (s.V - n ≤ k → (s'.holders.length : Int) ≤ max n 1) :=
   C13.reduction_takes_effect s h n hn ops hno
 
 /-- **Bounded wait, counted in completions** (= C13 `served_within` on the outgoing limiter): a
-caller queued at position `k` is written after at most `k + 1 + (V − T)⁺` completions of
+caller queued at position `k` is written after at most `k + 1 + (V − max T 1)⁺` completions of
 outstanding requests — and each outstanding request completes within `sent_request_timeout` of
-being written (that timing half is part (iii), checked by the oracle, not proved). -/
-theorem bounded_wait_in_completions (s : C13.Lim) (h : C13.Inv s) (p : C13.Pos s) (ops : List C13.Op)
+being written (that timing half is `outcome_within` below for the modelled wait, and the oracle on
+the real session). -/
+theorem bounded_wait_in_completions (s : C13.Lim) (h : C13.Inv s) (ops : List C13.Op)
     (he : C13.exitsOnly s ops) (k : Nat) (hk : k < s.waiters.length)
-    (hn : k + 1 + (s.V - s.T).toNat ≤ ops.length) :
+    (hn : k + 1 + (s.V - C13.bound s).toNat ≤ ops.length) :
     ∃ x, s.waiters[k]? = some x ∧ (C13.ids (C13.run s ops).2)[k]? = some x :=
-  C13.served_within s h p ops he k hk hn
+  C13.served_within s h ops he k hk hn
 
 /-- invariant of the composed system -/
 structure OInv (m : Int) (o : Out) : Prop where
   inv : C13.Inv o.lim
-  pos : C13.Pos o.lim
+  T_pos : 1 ≤ o.lim.T
   T_le : o.lim.T ≤ 250
   V_m : o.lim.V ≤ m
   T_m : o.lim.T ≤ m
@@ -223,7 +226,7 @@ def omaxT (c : OCfg) (o : Out) (m : Int) : List OOp → Int
 
 theorem record_inv (c : OCfg) (o : Out) (taken : Rat) (count : Nat) (m : Int) (h : OInv m o) :
     OInv (max m (record c o taken count).lim.T) (record c o taken count) := by
-  have hT1 := h.pos.T_pos
+  have hT1 := h.T_pos
   have hm := h.m_le; have hTle := h.T_le; have hVm := h.V_m; have hTm := h.T_m
   have r := target_range o.lim.T c.trt (avgOf (newTimes o taken count)) hT1 h.T_le
   unfold record
@@ -231,48 +234,50 @@ theorem record_inv (c : OCfg) (o : Out) (taken : Rat) (count : Nat) (m : Int) (h
   · rw [if_pos h1]
     by_cases h2 : recalc o.lim.T c.trt (avgOf (newTimes o taken count)) ≠ o.lim.T
     · rw [if_pos h2, C13.step_setTarget]
-      exact ⟨⟨h.inv.S_nonneg, h.inv.cons, h.inv.wait_S⟩, ⟨r.1, h.pos.V_pos, h.pos.no_leak⟩, r.2,
+      exact ⟨⟨h.inv.S_nonneg, h.inv.cons, h.inv.wait_S, h.inv.V_pos, h.inv.no_leak, h.inv.fx⟩, r.1, r.2,
         by first | omega | (dsimp only; omega), by first | omega | (dsimp only; omega), by first | omega | (dsimp only; omega)⟩
     · rw [if_neg h2]
-      exact ⟨h.inv, h.pos, h.T_le, by first | omega | (dsimp only; omega), by first | omega | (dsimp only; omega), by first | omega | (dsimp only; omega)⟩
+      exact ⟨h.inv, h.T_pos, h.T_le, by first | omega | (dsimp only; omega), by first | omega | (dsimp only; omega), by first | omega | (dsimp only; omega)⟩
   · rw [if_neg h1]
-    exact ⟨h.inv, h.pos, h.T_le, by first | omega | (dsimp only; omega), by first | omega | (dsimp only; omega), by first | omega | (dsimp only; omega)⟩
+    exact ⟨h.inv, h.T_pos, h.T_le, by first | omega | (dsimp only; omega), by first | omega | (dsimp only; omega), by first | omega | (dsimp only; omega)⟩
 
 theorem lim_step_inv (m : Int) (l : C13.Lim) (op : C13.Op) (hop : op.isSetTarget = false)
-    (inv : C13.Inv l) (pos : C13.Pos l) (hT : l.T ≤ 250) (hV : l.V ≤ m) (hTm : l.T ≤ m) :
-    C13.Inv (C13.step l op).1 ∧ C13.Pos (C13.step l op).1 ∧ (C13.step l op).1.T = l.T ∧
-    (C13.step l op).1.V ≤ m := by
+    (inv : C13.Inv l) (_hT : l.T ≤ 250) (hV : l.V ≤ m) (hTm : l.T ≤ m) :
+    C13.Inv (C13.step l op).1 ∧ (C13.step l op).1.T = l.T ∧ (C13.step l op).1.V ≤ m := by
   have f := C13.step_facts l op inv
-  have p := C13.step_pos l op inv pos (by intro n hn; subst hn; simp [C13.Op.isSetTarget] at hop)
   have := f.V_le hop
-  exact ⟨f.inv, p, f.T hop, by omega⟩
+  exact ⟨f.inv, f.T hop, by omega⟩
 
 theorem ostep_inv (c : OCfg) (o : Out) (op : OOp) (m : Int) (h : OInv m o) :
     OInv (max m (ostep c o op).1.lim.T) (ostep c o op).1 := by
+  have plain : ∀ (lop : C13.Op), lop.isSetTarget = false →
+      OInv (max m (C13.step o.lim lop).1.T) { o with lim := (C13.step o.lim lop).1 } := by
+    intro lop hl
+    have s := lim_step_inv m o.lim lop hl h.inv h.T_le h.V_m h.T_m
+    have hm := h.m_le; have hTle := h.T_le; have hV := s.2.2; have hT := s.2.1; have hp := h.T_pos
+    exact ⟨s.1, by first | omega | (dsimp only; omega), by first | omega | (dsimp only; omega),
+      by first | omega | (dsimp only; omega), by first | omega | (dsimp only; omega),
+      by first | omega | (dsimp only; omega)⟩
   cases op with
-  | send i =>
-    have s := lim_step_inv m o.lim (.enter i) rfl h.inv h.pos h.T_le h.V_m h.T_m
-    have hm := h.m_le; have hTle := h.T_le; have hV := s.2.2.2; have hT := s.2.2.1
+  | send i => simp only [ostep]; exact plain (.enter i) rfl
+  | cancelWaiter i => simp only [ostep]; exact plain (.cancelWaiter i) rfl
+  | sendFailed i =>
     simp only [ostep]
-    exact ⟨s.1, s.2.1, by first | omega | (dsimp only; omega), by first | omega | (dsimp only; omega), by first | omega | (dsimp only; omega),
-      by first | omega | (dsimp only; omega)⟩
-  | cancelWaiter i =>
-    have s := lim_step_inv m o.lim (.cancelWaiter i) rfl h.inv h.pos h.T_le h.V_m h.T_m
-    have hm := h.m_le; have hTle := h.T_le; have hV := s.2.2.2; have hT := s.2.2.1
-    simp only [ostep]
-    exact ⟨s.1, s.2.1, by first | omega | (dsimp only; omega), by first | omega | (dsimp only; omega), by first | omega | (dsimp only; omega),
-      by first | omega | (dsimp only; omega)⟩
+    split
+    · exact plain (.exit i) rfl
+    · have hm := h.m_le; have hTle := h.T_le; have hV := h.V_m; have hTm := h.T_m
+      exact ⟨h.inv, h.T_pos, h.T_le, by first | omega | (dsimp only; omega), by first | omega | (dsimp only; omega), by first | omega | (dsimp only; omega)⟩
   | done i taken count =>
     simp only [ostep]
     split
     · have r := record_inv c o taken count m h
-      have s := lim_step_inv _ (record c o taken count).lim (.exit i) rfl r.inv r.pos r.T_le r.V_m r.T_m
-      have hm := r.m_le; have hTle := r.T_le; have hV := s.2.2.2; have hT := s.2.2.1
-      have hTm := r.T_m
-      exact ⟨s.1, s.2.1, by first | omega | (dsimp only; omega), by first | omega | (dsimp only; omega), by first | omega | (dsimp only; omega),
+      have s := lim_step_inv _ (record c o taken count).lim (.exit i) rfl r.inv r.T_le r.V_m r.T_m
+      have hm := r.m_le; have hTle := r.T_le; have hV := s.2.2; have hT := s.2.1
+      have hTm := r.T_m; have hp := r.T_pos
+      exact ⟨s.1, by first | omega | (dsimp only; omega), by first | omega | (dsimp only; omega), by first | omega | (dsimp only; omega), by first | omega | (dsimp only; omega),
         by first | omega | (dsimp only; omega)⟩
     · have hm := h.m_le; have hTle := h.T_le; have hV := h.V_m; have hTm := h.T_m
-      exact ⟨h.inv, h.pos, h.T_le, by first | omega | (dsimp only; omega), by first | omega | (dsimp only; omega), by first | omega | (dsimp only; omega)⟩
+      exact ⟨h.inv, h.T_pos, h.T_le, by first | omega | (dsimp only; omega), by first | omega | (dsimp only; omega), by first | omega | (dsimp only; omega)⟩
 
 theorem orun_inv (c : OCfg) (ops : List OOp) : ∀ (o : Out) (m : Int), OInv m o →
     OInv (omaxT c o m ops) (orun c o ops).1 := by
@@ -282,54 +287,185 @@ theorem orun_inv (c : OCfg) (ops : List OOp) : ∀ (o : Out) (m : Int), OInv m o
     intro o m h
     exact ih _ _ (ostep_inv c o op m h)
 
-/-- **In-flight cap**: for every workload (any interleaving of callers reaching the limiter,
-completions with any measured response times and request counts, cancelled queued callers) and any
-`target_response_time` / `recalibrate_count`: the number of send operations awaiting a response
-never exceeds the largest limit that has been in force, which itself never exceeds 250; the limit
-stays in [1, 250]; permits are conserved.  (A batch is one send operation holding one permit.) -/
+theorem oinit_inv : OInv Facts.C20.outgoingInitial (oinit Facts.C20.outgoingInitial) :=
+  ⟨C13.init_inv _, by decide, by decide, by decide, by decide, by decide⟩
+
+/-- **In-flight cap (send operations)**: for every workload (any interleaving of callers reaching
+the limiter, completions with any measured response times and request counts, writes that fail
+before the wait begins, cancelled queued callers) and any `target_response_time` /
+`recalibrate_count`: the number of send operations awaiting a response never exceeds the largest
+limit that has been in force, which itself never exceeds 250; the limit stays in [1, 250]; permits
+are conserved.  (A batch is ONE send operation holding one permit — for *requests* see
+`awaiting_cap_full_fails` / `awaiting_cap_partial`.) -/
 theorem in_flight_cap (c : OCfg) (ops : List OOp) :
     let o := (orun c (oinit Facts.C20.outgoingInitial) ops).1
     let m := omaxT c (oinit Facts.C20.outgoingInitial) Facts.C20.outgoingInitial ops
     (o.lim.holders.length : Int) ≤ m ∧ m ≤ 250 ∧ 1 ≤ o.lim.T ∧ o.lim.T ≤ 250 ∧
     o.lim.S + o.lim.holders.length = o.lim.V ∧ 0 ≤ o.lim.S := by
-  have h0 : OInv Facts.C20.outgoingInitial (oinit Facts.C20.outgoingInitial) :=
-    ⟨C13.init_inv _, C13.init_pos _ (by decide), by decide, by decide, by decide, by decide⟩
-  have h := orun_inv c ops _ _ h0
-  have hc := h.inv.cons; have hs := h.inv.S_nonneg; have hl := h.pos.no_leak
+  have h := orun_inv c ops _ _ oinit_inv
+  have hc := h.inv.cons; have hs := h.inv.S_nonneg
   have hv := h.V_m
-  refine ⟨by omega, h.m_le, h.pos.T_pos, h.T_le, by rw [hl] at hc; simpa using hc, hs⟩
+  refine ⟨by omega, h.m_le, h.T_pos, h.T_le, hc, hs⟩
 
-/-! ## tie to the source -/
+/-- **The text's own statement**: "requests awaiting responses never outnumber the largest
+outgoing concurrency limit that has been in force" — counting *requests*, a batch of `k` requests
+being `k` of them. -/
+def awaiting_cap_full : Prop :=
+  ∀ (c : OCfg) (ops : List OOp) (cnt : Nat → Nat),
+    (awaiting (orun c (oinit Facts.C20.outgoingInitial) ops).1 cnt : Int) ≤
+      omaxT c (oinit Facts.C20.outgoingInitial) Facts.C20.outgoingInitial ops
+
+/-- **It fails** (known finding `c20:batch-requests-exceed-limit`, no small safe repair: a batch
+takes one permit by design): one batch of 60 requests on a fresh session — 60 requests await
+responses, the limit has never been above 50. -/
+theorem awaiting_cap_full_fails : ¬ awaiting_cap_full := by
+  intro h
+  have := h ⟨3, 30⟩ [.send 0] (fun _ => 60)
+  revert this
+  decide +kernel
+
+theorem sum_map_one (l : List Nat) (cnt : Nat → Nat) (h : ∀ i ∈ l, cnt i = 1) :
+    (l.map cnt).sum = l.length := by
+  induction l with
+  | nil => rfl
+  | cons a r ih =>
+    simp only [List.map_cons, List.sum_cons, List.length_cons]
+    rw [h a (by simp), ih (fun i hi => h i (by simp [hi]))]; omega
+
+/-- **What does hold**: for single requests the two counts coincide — requests awaiting responses
+never outnumber the largest limit so far as long as every send operation in flight is a single
+request; in general they are bounded by that limit times the largest batch. -/
+theorem awaiting_cap_partial (c : OCfg) (ops : List OOp) (cnt : Nat → Nat) (k : Nat)
+    (hk : ∀ i ∈ (orun c (oinit Facts.C20.outgoingInitial) ops).1.lim.holders, cnt i ≤ k) :
+    (awaiting (orun c (oinit Facts.C20.outgoingInitial) ops).1 cnt : Int) ≤
+      k * omaxT c (oinit Facts.C20.outgoingInitial) Facts.C20.outgoingInitial ops := by
+  have cap : ((orun c (oinit Facts.C20.outgoingInitial) ops).1.lim.holders.length : Int) ≤
+      omaxT c (oinit Facts.C20.outgoingInitial) Facts.C20.outgoingInitial ops := (in_flight_cap c ops).1
+  unfold awaiting
+  generalize (orun c (oinit Facts.C20.outgoingInitial) ops).1.lim.holders = l at hk cap ⊢
+  generalize omaxT c (oinit Facts.C20.outgoingInitial) Facts.C20.outgoingInitial ops = m at cap ⊢
+  have hsum : (l.map cnt).sum ≤ k * l.length := by
+    clear cap
+    induction l with
+    | nil => simp
+    | cons a r ih =>
+      simp only [List.map_cons, List.sum_cons, List.length_cons]
+      have := hk a (by simp)
+      have := ih (fun i hi => hk i (by simp [hi]))
+      rw [Nat.mul_succ]; omega
+  have h1 : ((l.map cnt).sum : Int) ≤ ((k * l.length : Nat) : Int) := by exact_mod_cast hsum
+  have h2 : ((k * l.length : Nat) : Int) = (k : Int) * (l.length : Int) := by push_cast; rfl
+  have h3 : (k : Int) * (l.length : Int) ≤ (k : Int) * m :=
+    Int.mul_le_mul_of_nonneg_left cap (by omega)
+  omega
+
+/-! ## tie to the source: behavioural tables regenerated on every run by RUNNING the current tree
+(tools/facts/c20.py: a live client session with a scripted peer under virtual time, public API
+only).  Nothing below depends on how `_recalc_concurrency` / `_send_concurrent` are written. -/
 
 theorem facts_constants :
     Facts.C20.outgoingInitial = 50 ∧ Facts.C20.sentRequestTimeout = 30 ∧
     Facts.C20.targetResponseTime = 3 ∧ Facts.C20.recalibrateCount = 30 ∧
     Facts.C20.maxSendDelay = 20 := by decide +kernel
 
-/-- `_recalc_concurrency` computes what `recalc` computes (per-path symbolic normal form; this is
-the normal form of the code **after** F18 — on the pinned tree this obligation fails and the check
-reports the F18 witness) -/
-theorem facts_recalc : Facts.C20.recalcPaths =
-    ["when sum(_req_times) / len(_req_times) Eq 0 & _outgoing_concurrency.max_concurrent Eq int(0.5 + min(max(3, _outgoing_concurrency.max_concurrent // 10) + _outgoing_concurrency.max_concurrent, 250)): do _req_times.clear()",
-     "when sum(_req_times) / len(_req_times) Eq 0 & _outgoing_concurrency.max_concurrent NotEq int(0.5 + min(max(3, _outgoing_concurrency.max_concurrent // 10) + _outgoing_concurrency.max_concurrent, 250)): do _req_times.clear(); do _outgoing_concurrency.set_target(int(0.5 + min(max(3, _outgoing_concurrency.max_concurrent // 10) + _outgoing_concurrency.max_concurrent, 250)))",
-     "when sum(_req_times) / len(_req_times) NotEq 0 & _outgoing_concurrency.max_concurrent Eq int(0.5 + max(max(1, _outgoing_concurrency.max_concurrent - max(1, _outgoing_concurrency.max_concurrent // 5)), min(min(max(3, _outgoing_concurrency.max_concurrent // 10) + _outgoing_concurrency.max_concurrent, 250), _outgoing_concurrency.max_concurrent * target_response_time / (sum(_req_times) / len(_req_times))))): do _req_times.clear()",
-     "when sum(_req_times) / len(_req_times) NotEq 0 & _outgoing_concurrency.max_concurrent NotEq int(0.5 + max(max(1, _outgoing_concurrency.max_concurrent - max(1, _outgoing_concurrency.max_concurrent // 5)), min(min(max(3, _outgoing_concurrency.max_concurrent // 10) + _outgoing_concurrency.max_concurrent, 250), _outgoing_concurrency.max_concurrent * target_response_time / (sum(_req_times) / len(_req_times))))): do _req_times.clear(); do _outgoing_concurrency.set_target(int(0.5 + max(max(1, _outgoing_concurrency.max_concurrent - max(1, _outgoing_concurrency.max_concurrent // 5)), min(min(max(3, _outgoing_concurrency.max_concurrent // 10) + _outgoing_concurrency.max_concurrent, 250), _outgoing_concurrency.max_concurrent * target_response_time / (sum(_req_times) / len(_req_times))))))"] :=
-  rfl
+open Table in
+/-- read `n` steps (request_count, response time numerator, denominator) -/
+def takeSteps : Nat → List Int → Option (List (Nat × Rat) × List Int)
+  | 0, l => some ([], l)
+  | n + 1, k :: a :: b :: l => (takeSteps n l).map (fun r => ((k.toNat, ratOf a b) :: r.1, r.2))
+  | _ + 1, _ => none
 
-/-- the shape of `_send_concurrent`: limiter around everything; the wait for the future under
-`timeout_after(sent_request_timeout)`; the time is recorded in a `finally` inside the limiter;
-per-request share for batches; recalibration when enough samples; `connection_lost` cancels -/
-theorem facts_send_concurrent :
-    Facts.C20.sendConcurrentGuard = "_outgoing_concurrency" ∧
-    Facts.C20.awaitUnder = "timeout_after(sent_request_timeout)" ∧
-    Facts.C20.finallyInsideGuard = true ∧
-    Facts.C20.finallyPaths =
-      ["when a2 Eq 1 & len(_req_times) GtE recalibrate_count: do _req_times.append(max(0, time.time() - send_time)); do _recalc_concurrency()",
-      "when a2 Eq 1 & len(_req_times) Lt recalibrate_count: do _req_times.append(max(0, time.time() - send_time))",
-      "when a2 NotEq 1 & len(_req_times) GtE recalibrate_count: do _req_times.extend([max(0, time.time() - send_time) / a2] * a2); do _recalc_concurrency()",
-      "when a2 NotEq 1 & len(_req_times) Lt recalibrate_count: do _req_times.extend([max(0, time.time() - send_time) / a2] * a2)"] ∧
-    Facts.C20.connectionLostBody = ["cancel_pending_requests"] :=
-  ⟨rfl, rfl, rfl, rfl, rfl⟩
+/-- send operations answered one after the other: after each completion the model's limit must be
+the observed one -/
+def checkFlow (c : OCfg) : Out → Nat → List (Nat × Rat) → List Int → Bool
+  | _, _, [], [] => true
+  | o, k, (count, taken) :: steps, t :: obs =>
+      let o1 := (ostep c o (.send k)).1
+      let o2 := (ostep c o1 (.done k taken count)).1
+      decide (o2.lim.T = t) && decide (o2.lim.holders = []) && checkFlow c o2 (k + 1) steps obs
+  | _, _, _, _ => false
+
+def flowRowOk (row : List Int) : Bool :=
+  match row with
+  | tn :: td :: recal :: n :: rest =>
+      match takeSteps n.toNat rest with
+      | some (steps, obs) => checkFlow ⟨Table.ratOf tn td, recal.toNat⟩ (oinit Facts.C20.outgoingInitial) 0 steps obs
+      | none => false
+  | _ => false
+
+/-- **`_send_concurrent`'s bookkeeping and `_recalc_concurrency` compute what the model computes**:
+on every sequence of send operations the facts extractor ran on a live client session (walks of
+the limit from 50 up to 250, down to 1 and back, between the bounds, with several samples per
+recalibration, batches contributing their per-request share per member, recalibrate_count 0 and
+non-positive target_response_time) the outgoing limit after every completion is the model's.
+(This is the normal form of the code **after** F18; delays are chosen so that every float
+operation is exact and no rounding tie can occur.) -/
+theorem facts_flow_table :
+    Facts.C20.flowTable.all flowRowOk = true ∧ 10 ≤ Facts.C20.flowTable.length := by
+  decide +kernel
+
+/-! ### (iii) the timed model against what callers get and when -/
+
+open Table in
+/-- read `n` environment actions (time num den, kind, id, request_count) as timed operations: wait
+until the action's time, then perform it -/
+def takeEnv : Nat → Rat → List Int → Option (List TOp × Rat × List Int)
+  | 0, now, l => some ([], now, l)
+  | n + 1, now, tn :: td :: kind :: i :: cnt :: l =>
+      let t := ratOf tn td
+      let op : TOp := if kind = 0 then .call i.toNat cnt.toNat else if kind = 1 then .answer i.toNat else .lose
+      (takeEnv n t l).map (fun r => (.wait (t - now) :: op :: r.1, r.2))
+  | _ + 1, _, _ => none
+
+def writtenAt (i : Nat) : List TEv → Option Rat
+  | [] => none
+  | .written j t :: r => if j = i then some t else writtenAt i r
+  | _ :: r => writtenAt i r
+
+def endOf (i : Nat) : List TEv → Option (Rat × EndKind)
+  | [] => none
+  | .ended j _ t k :: r => if j = i then some (t, k) else endOf i r
+  | _ :: r => endOf i r
+
+def kindCode : EndKind → List Int
+  | .answered => [0, 1]
+  | .timedOut => [2]
+  | .cancelled => [3]
+
+open Table in
+/-- per caller: written?, write time, outcome, outcome time — as the model has them -/
+def checkCallers (evs : List TEv) : Nat → Nat → List Int → Bool
+  | _, 0, [] => true
+  | i, n + 1, hw :: wn :: wd :: k :: tn :: td :: rest =>
+      (match writtenAt i evs with
+       | some w => decide (hw = 1) && decide (w = ratOf wn wd)
+       | none => decide (hw = 0)) &&
+      (match endOf i evs with
+       | some (t, kind) => decide (k ∈ kindCode kind) && decide (t = ratOf tn td)
+       | none => false) && checkCallers evs (i + 1) n rest
+  | _, _, _ => false
+
+def outcomeRowOk (row : List Int) : Bool :=
+  match row with
+  | L :: tn :: td :: nenv :: rest =>
+      match takeEnv nenv.toNat 0 rest with
+      | some (ops, last, n :: obs) =>
+          let τ := Table.ratOf tn td
+          let r := trun ⟨3, 1000000⟩ τ (tinit L.toNat) (ops ++ [.wait (τ * (n + 3) + last + 1)])
+          checkCallers r.2 0 n.toNat obs
+      | _ => false
+  | _ => false
+
+/-- **What callers get and when** (part iii against the code): on a live client session whose
+outgoing limiter was first brought to limit L through the public API, for silent peers, peers that
+answer after a delay (all or only some requests) and connections that are lost: every caller's
+request is written when the timed model says (the excess over the limit only when a slot frees),
+and every call ends when and how the timed model says — `TaskTimeout` exactly
+`sent_request_timeout` after the write, the result when the answer arrives, cancellation at the
+moment of the loss, also for callers still queued. -/
+theorem facts_outcome_table :
+    Facts.C20.outcomeTable.all outcomeRowOk = true ∧ 12 ≤ Facts.C20.outcomeTable.length := by
+  decide +kernel
 
 /-! ## non-vacuity -/
 
